@@ -89,7 +89,7 @@ func genC14Plan(r *sim.Rng, tier string) C14Plan {
 			p.Creds = append(p.Creds, all[r.Intn(len(all))])
 		}
 	case "kick":
-		all := []string{"rtmp_pub", "rtmp_sub", "flv_sub", "ts_sub", "rtsp_pub", "rtsp_sub"}
+		all := []string{"rtmp_pub", "rtmp_sub", "flv_sub", "ts_sub", "rtsp_pub", "rtsp_sub", "rtsp_desc"}
 		if r.Bool(0.4) {
 			p.Conf.HlsSubKey = "simsubkey"
 			all = append(all, "hls_sub", "hls_sub")
@@ -272,6 +272,9 @@ func c14Do(k *sim.Kernel, w *World, l *c14Live, idx int, proto, stream, query st
 		a.Leave(false)
 	case "hls_m3u8":
 		path := "/hls/" + stream + ".m3u8"
+		if idx%2 == 1 {
+			path = "/hls/" + stream + "/playlist.m3u8" // the other URL form of the same playlist
+		}
 		if query != "" {
 			path += "?" + query
 		}
@@ -507,9 +510,11 @@ func runC14Kick(k *sim.Kernel, w *World, p C14Plan) {
 			a.ClientPort = 22000 + 10*i
 			a.Connect(PortRtsp, 20+i)
 			conn, closed = a.Conn, func() bool { return a.Closed }
-		case "rtsp_sub":
+		case "rtsp_sub", "rtsp_desc":
+			// rtsp_desc: a player that has the description but has not sent SETUP / PLAY yet (listed by the stat API already)
 			a := actors.NewRtspClient(k, name, "play", fmt.Sprintf("rtsp://127.0.0.1:%d/live/%s", PortRtsp, stream), p.Tcp)
 			a.ClientPort = 22000 + 10*i
+			a.DescribeOnly = kind == "rtsp_desc"
 			a.Connect(PortRtsp, 20+i)
 			conn, closed = a.Conn, func() bool { return a.Closed }
 		}
@@ -523,6 +528,9 @@ func runC14Kick(k *sim.Kernel, w *World, p C14Plan) {
 			continue
 		}
 		id := rr.sessionIdOf(conn.RemoteAddr().String())
+		if id == "" {
+			id = c14StatSessionId(w, stream, conn.RemoteAddr().String(), i)
+		}
 		if id == "" {
 			continue // no session was established (e.g. the RTSP player still waits for the description)
 		}
@@ -541,6 +549,28 @@ func runC14Kick(k *sim.Kernel, w *World, p C14Plan) {
 	if l.pub.Closed {
 		k.Violate("C14.kick-bystander", "the publisher that was not kicked got disconnected")
 	}
+}
+
+// c14StatSessionId looks a session up by its peer address in what the stat API lists for the stream.
+func c14StatSessionId(w *World, stream, remote string, n int) string {
+	res := w.Api(fmt.Sprintf("api-stat-id-%d", n), "/api/stat/group?stream_name="+stream, nil)
+	var g struct {
+		Data struct {
+			Subs []struct {
+				SessionId  string `json:"session_id"`
+				RemoteAddr string `json:"remote_addr"`
+			} `json:"subs"`
+		} `json:"data"`
+	}
+	if !res.Done || json.Unmarshal(res.Body, &g) != nil {
+		return ""
+	}
+	for _, s := range g.Data.Subs {
+		if s.RemoteAddr == remote {
+			return s.SessionId
+		}
+	}
+	return ""
 }
 
 // c14KickHlsSub: a player in HLS sub-session mode (302 to the playlist URL with a session_id) is kicked through the API.
@@ -615,11 +645,28 @@ func runC14Blacklist(k *sim.Kernel, w *World, p C14Plan) {
 	if _, ok := k.FS.File("/simhls/bl1/playlist.m3u8"); !ok {
 		return
 	}
+	// every probe asks for the playlist and for a segment the playlist listed when the address was still admitted
+	// ("no HLS content" covers both); segServed tells whether the last probe got segment bytes
+	segPath, segServed := "", false
 	get := func(tag string, ipk int) (bool, *actors.HttpClient) {
 		a := c14HlsGet(k, tag, "/hls/bl1/playlist.m3u8", ipk)
 		ok := a.Resp.HeaderDone && a.Resp.Status == 200 && strings.Contains(string(a.Resp.Body), "#EXTM3U")
 		a.Leave(false)
 		k.Settle()
+		if ok && segPath == "" {
+			for _, l := range strings.Split(string(a.Resp.Body), "\n") {
+				if l = strings.TrimSpace(l); strings.HasSuffix(l, ".ts") {
+					segPath = "/hls/bl1/" + l
+				}
+			}
+		}
+		segServed = false
+		if segPath != "" {
+			b := c14HlsGet(k, tag+"-seg", segPath, ipk)
+			segServed = b.Resp.HeaderDone && b.Resp.Status == 200 && len(b.Resp.Body) >= 188
+			b.Leave(false)
+			k.Settle()
+		}
 		return ok, a
 	}
 	if ok, a := get("pre", 33); !ok {
@@ -640,8 +687,8 @@ func runC14Blacklist(k *sim.Kernel, w *World, p C14Plan) {
 		if ad.Probe {
 			ok, a := get(fmt.Sprintf("between%d", i), 33)
 			now := k.NowMs()
-			if ok && now < lastEnd-600 {
-				k.Violate("C14.blacklist-served", "the black-listed address got the playlist %d ms before the expiry of its latest listing", lastEnd-now)
+			if (ok || segServed) && now < lastEnd-600 {
+				k.Violate("C14.blacklist-served", "the black-listed address got the playlist (%v) / a segment (%v) %d ms before the expiry of its latest listing", ok, segServed, lastEnd-now)
 			}
 			if !ok && now > maxEnd+2100 {
 				k.Violate("C14.blacklist-not-expired", "the address is still denied %d ms after every listing expired (status %d)", now-maxEnd, a.Resp.Status)
@@ -669,8 +716,8 @@ func runC14Blacklist(k *sim.Kernel, w *World, p C14Plan) {
 			if k.NowMs() >= lastEnd-500 {
 				break
 			}
-			if ok, a := get(fmt.Sprintf("re%d", i), 33); ok || strings.Contains(string(a.Resp.Body), "#EXT") {
-				k.Violate("C14.blacklist-served", "the address got the playlist %d ms before the expiry of its latest listing (%d listings)", lastEnd-k.NowMs(), 1+len(p.Adds))
+			if ok, a := get(fmt.Sprintf("re%d", i), 33); ok || segServed || strings.Contains(string(a.Resp.Body), "#EXT") {
+				k.Violate("C14.blacklist-served", "the address got the playlist or a segment %d ms before the expiry of its latest listing (%d listings)", lastEnd-k.NowMs(), 1+len(p.Adds))
 			}
 		}
 		if d := maxEnd + 2100 - k.NowMs(); d > 0 {
@@ -687,8 +734,8 @@ func runC14Blacklist(k *sim.Kernel, w *World, p C14Plan) {
 		if d := int64(at) - (k.NowMs() - t0); d > 0 {
 			k.Advance(time.Duration(d) * time.Millisecond)
 		}
-		if ok, a := get(fmt.Sprintf("in%d", i), 33); ok || strings.Contains(string(a.Resp.Body), "#EXT") {
-			k.Violate("C14.blacklist-served", "the black-listed address got the playlist %d ms after being listed for %d s", k.NowMs()-t0, p.Dur)
+		if ok, a := get(fmt.Sprintf("in%d", i), 33); ok || segServed || strings.Contains(string(a.Resp.Body), "#EXT") {
+			k.Violate("C14.blacklist-served", "the black-listed address got the playlist or a segment %d ms after being listed for %d s", k.NowMs()-t0, p.Dur)
 		}
 		if ok, a := get(fmt.Sprintf("other%d", i), 34); !ok {
 			k.Violate("C14.blacklist-unlisted-denied", "another address got no playlist while 10.0.33.1 was black-listed (status %d)", a.Resp.Status)
